@@ -1106,6 +1106,12 @@ def _with_mode(mode, fn):
         saved = _MODE[0]
         _MODE[0] = mode
         try:
+            if "cybuild" not in ctx.stats.extra:
+                from build import cybuild
+                t = cybuild.build_times()
+                ctx.stats.extra["cybuild"] = ", ".join(
+                    "%s: %s" % (m, "products restored from the content-addressed cache" if v == 0.0 else "built in %.0f s" % v)
+                    for m, v in sorted(t.items())) or "built by another process of this run"
             return fn(case, ctx)
         finally:
             _MODE[0] = saved
